@@ -476,3 +476,295 @@ Section Main.
     inversion H; subst. pose proof (resolve_go_inst _ _ _ _ _ E []) as K. rewrite app_nil_r in K. exact K.
   Qed.
 End Main.
+
+(** ** 4. soundness of the boolean reader *)
+Lemma expect_ok x ts rest : expect x ts = Some rest -> ts = x :: rest.
+Proof.
+  unfold expect. destruct ts as [|t ts']; [discriminate|]. destruct (String.eqb t x) eqn:E; [|discriminate].
+  apply String.eqb_eq in E. intros H; inversion H; subst; reflexivity.
+Qed.
+
+Lemma expects_ok : forall xs ts rest, expects xs ts = Some rest -> ts = xs ++ rest.
+Proof.
+  induction xs as [|x xs IH]; intros ts rest H; cbn [expects] in H.
+  - inversion H; reflexivity.
+  - destruct (expect x ts) as [t1|] eqn:E; [|discriminate]. apply expect_ok in E. subst ts.
+    cbn [app]. f_equal. apply IH. exact H.
+Qed.
+
+Lemma read_unsigned_sound suffix bits ts rest :
+  read_unsigned suffix bits ts = Some rest -> unsigned_lit suffix bits ts rest.
+Proof.
+  unfold read_unsigned, unsigned_lit. destruct ts as [|t ts']; [discriminate|].
+  destruct (String.eqb t (lit_u suffix (digits_value t 0)) && (digits_value t 0 <? 2 ^ bits)%N) eqn:E; [|discriminate].
+  apply andb_prop in E as [E1 E2]. apply String.eqb_eq in E1. apply N.ltb_lt in E2.
+  intros H; inversion H; subst. eexists. split; [exact E2|]. f_equal. exact E1.
+Qed.
+
+Lemma read_signed_sound suffix bits ts rest :
+  read_signed suffix bits ts = Some rest -> signed_lit suffix bits ts rest.
+Proof.
+  unfold read_signed, signed_lit. set (z := match ts with [] => 0%Z | _ => _ end). clearbody z.
+  destruct ((- Z.of_N (2 ^ (bits - 1)) <=? z)%Z && (z <? Z.of_N (2 ^ (bits - 1)))%Z) eqn:E; [|discriminate].
+  apply andb_prop in E as [E1 E2]. apply Z.leb_le in E1. apply Z.ltb_lt in E2.
+  intros H. apply expects_ok in H. exists z. split; [split; assumption|exact H].
+Qed.
+
+Lemma read_bytes32_sound ts rest : read_bytes32 ts = Some rest -> bytes32_lit ts rest.
+Proof.
+  unfold read_bytes32, bytes32_lit. set (b := map _ _). clearbody b.
+  destruct (Nat.eqb (List.length b) 32 && forallb (fun n => (n <? 256)%N) b) eqn:E; [|discriminate].
+  apply andb_prop in E as [E1 E2]. apply Nat.eqb_eq in E1.
+  intros H. apply expects_ok in H. exists b. split; [exact E1|]. split; [|exact H].
+  apply Forall_forall. intros x Hx. rewrite forallb_forall in E2. apply N.ltb_lt. apply E2. exact Hx.
+Qed.
+
+Lemma read_prim_sound p ts rest : read_prim p ts = Some rest -> prim_lit p ts rest.
+Proof.
+  destruct p; cbn [read_prim prim_lit]; try apply read_unsigned_sound; try apply read_signed_sound;
+    try apply read_bytes32_sound.
+  - destruct (expect "true" ts) as [r1|] eqn:E.
+    + intros H; inversion H; subst. left. apply expect_ok. exact E.
+    + intros H. right. apply expect_ok. exact H.
+  - destruct ts as [|t ts']; [discriminate|]. destruct t as [|c0 [|c t']]; try discriminate.
+    destruct (alnum c && String.eqb (String c0 (String c t')) (quote_with "'" (String c ""))) eqn:E; [|discriminate].
+    apply andb_prop in E as [E1 E2]. apply String.eqb_eq in E2.
+    intros H; inversion H; subst. exists c. split; [exact E1|]. f_equal. exact E2.
+  - destruct ts as [|t ts']; [discriminate|].
+    set (x := match t with EmptyString => EmptyString | String _ x' => string_removelast x' end). clearbody x.
+    destruct (all_chars alnum x && String.eqb t (quote_with """" x)) eqn:E; [|discriminate].
+    apply andb_prop in E as [E1 E2]. apply String.eqb_eq in E2.
+    intros H. apply expects_ok in H. subst ts'. exists x. split; [exact E1|]. f_equal. exact E2.
+Qed.
+
+Section ReaderSound.
+  Variable C : N -> tokens -> option tokens.
+  Variable P : N -> tokens -> tokens -> Prop.
+  Hypothesis HC : forall i ts rest, C i ts = Some rest -> P i ts rest.
+
+  Lemma read_value_sound f ts rest : read_value C f ts = Some rest -> conf_value P f ts rest.
+  Proof.
+    unfold read_value. destruct (explicit_compact f) eqn:E.
+    - destruct (expects ["Compact"; "("]%string ts) as [t1|] eqn:E1; [|discriminate].
+      apply expects_ok in E1. subst ts.
+      destruct (C (f_ty f) t1) as [t2|] eqn:E2; [|discriminate].
+      intros H. apply expect_ok in H. subst t2. cbn [app]. apply cv_compact; [exact E|apply HC; exact E2].
+    - intros H. apply cv_plain; [exact E|apply HC; exact H].
+  Qed.
+
+  Lemma read_named_sound : forall ns fs ts rest,
+    read_named C ns fs ts = Some rest -> conf_named P ns fs ts rest.
+  Proof.
+    induction ns as [|n ns IH]; intros fs ts rest H; destruct fs as [|f fs]; cbn [read_named] in H;
+      try discriminate.
+    - inversion H; subst. constructor.
+    - destruct (expects [n; ":"%string] ts) as [t1|] eqn:E1; [|discriminate]. apply expects_ok in E1. subst ts.
+      destruct (read_value C f t1) as [t2|] eqn:E2; [|discriminate].
+      destruct (expect "," t2) as [t3|] eqn:E3; [|discriminate]. apply expect_ok in E3. subst t2.
+      cbn [app]. eapply cn_cons; [apply read_value_sound; exact E2|apply IH; exact H].
+  Qed.
+
+  Lemma read_unnamed_sound : forall k fs ts rest,
+    read_unnamed C k fs ts = Some rest -> conf_unnamed P k fs ts rest.
+  Proof.
+    induction k as [|k IH]; intros fs ts rest H; destruct fs as [|f fs]; cbn [read_unnamed] in H;
+      try discriminate.
+    - inversion H; subst. constructor.
+    - destruct (read_value C f ts) as [t2|] eqn:E2; [|discriminate].
+      destruct (expect "," t2) as [t3|] eqn:E3; [|discriminate]. apply expect_ok in E3. subst t2.
+      eapply cu_cons; [apply read_value_sound; exact E2|apply IH; exact H].
+  Qed.
+
+  Definition agrees (mk : option bool) (b : bool) : Prop := forall b', mk = Some b' -> b = b'.
+
+  Lemma read_close_sound wm close mk ts rest :
+    read_close wm close mk ts = Some rest ->
+    exists b, agrees mk b /\ ts = (if b then wm else []) ++ close :: rest.
+  Proof.
+    unfold read_close. destruct mk as [[|]|].
+    - intros H. apply expects_ok in H. exists true. split; [intros b' E; inversion E; reflexivity|].
+      rewrite H, <- List.app_assoc. reflexivity.
+    - intros H. apply expect_ok in H. exists false. split; [intros b' E; inversion E; reflexivity|exact H].
+    - destruct (expects (wm ++ [close]) ts) as [r1|] eqn:E.
+      + intros H; inversion H; subst. apply expects_ok in E. exists true. split; [intros b' E'; discriminate|].
+        rewrite E, <- List.app_assoc. reflexivity.
+      + intros H. apply expect_ok in H. exists false. split; [intros b' E'; discriminate|exact H].
+  Qed.
+
+  Lemma unit_marker_sound ts rest :
+    expects ("(" :: marker_path ++ [")"])%string ts = Some rest -> conf_shape P LUnit true [] ts rest.
+  Proof.
+    intros H. apply expects_ok in H. subst ts. cbn [app]. rewrite <- List.app_assoc. cbn [app].
+    apply cs_unit_marker.
+  Qed.
+
+  Lemma read_shape_sound L mk fs ts rest :
+    read_shape C L mk fs ts = Some rest -> exists b, agrees mk b /\ conf_shape P L b fs ts rest.
+  Proof.
+    unfold read_shape. destruct L as [|ns|k].
+    - destruct fs as [|f fs]; [|discriminate].
+      pose proof unit_marker_sound as Hm.
+      destruct mk as [[|]|].
+      + intros H. exists true. split; [intros b' E; inversion E; reflexivity|apply Hm; exact H].
+      + intros H; inversion H; subst. exists false. split; [intros b' E; inversion E; reflexivity|apply cs_unit].
+      + destruct (expects ("(" :: marker_path ++ [")"])%string ts) as [r1|] eqn:E.
+        * intros H; inversion H; subst. exists true. split; [intros b' E'; discriminate|apply Hm; exact E].
+        * intros H; inversion H; subst. exists false. split; [intros b' E'; discriminate|apply cs_unit].
+    - destruct (expect "{" ts) as [t1|] eqn:E1; [|discriminate]. apply expect_ok in E1. subst ts.
+      destruct (read_named C ns fs t1) as [t2|] eqn:E2; [|discriminate].
+      intros H. apply read_close_sound in H as (b & Hb & ->). exists b. split; [exact Hb|].
+      apply cs_named. apply read_named_sound in E2. destruct b; exact E2.
+    - destruct (expect "(" ts) as [t1|] eqn:E1; [|discriminate]. apply expect_ok in E1. subst ts.
+      destruct (read_unnamed C k fs t1) as [t2|] eqn:E2; [|discriminate].
+      intros H. apply read_close_sound in H as (b & Hb & ->). exists b. split; [exact Hb|].
+      apply cs_unnamed. apply read_unnamed_sound in E2. destruct b; exact E2.
+  Qed.
+
+  Lemma read_sep_sound e : forall fuel ts n k rest,
+    read_sep C fuel e ts n = Some (k, rest) ->
+    exists j, (k = n + j)%N /\ (0 < j)%N /\ conf_sep P e j ts rest.
+  Proof.
+    induction fuel as [|fuel IH]; intros ts n k rest H; [discriminate|]. cbn [read_sep] in H.
+    destruct (C e ts) as [t1|] eqn:E1; [|discriminate].
+    destruct (expect "," t1) as [t2|] eqn:E2.
+    - apply expect_ok in E2. subst t1. apply IH in H as (j & Hk & Hj & Hsep).
+      exists (N.succ j). split; [lia|]. split; [lia|]. eapply sep_S; [exact Hj|apply HC; exact E1|exact Hsep].
+    - inversion H; subst. exists 1%N. split; [reflexivity|]. split; [lia|]. apply sep_1. apply HC. exact E1.
+  Qed.
+
+  Lemma read_tuple_sound : forall l ts rest, read_tuple C l ts = Some rest -> conf_tuple P l ts rest.
+  Proof.
+    induction l as [|i l IH]; intros ts rest H; cbn [read_tuple] in H.
+    - inversion H; subst. constructor.
+    - destruct (C i ts) as [t1|] eqn:E1; [|discriminate].
+      destruct (expect "," t1) as [t2|] eqn:E2; [|discriminate]. apply expect_ok in E2. subst t1.
+      eapply ct_cons; [apply HC; exact E1|apply IH; exact H].
+  Qed.
+End ReaderSound.
+
+Section IrSound.
+  Variable r : registry.
+  Variable s : settings.
+  Variable m : items.
+
+  Lemma variant_general_sound fuel id t vs p ts rest :
+    (forall i ts0 rest0, conf_ir r s m fuel i ts0 = Some rest0 -> conforms r s m i ts0 rest0) ->
+    lookup r id = Some t -> t_def t = TDVariant vs -> path_omit_generics r s id = Ok p ->
+    match expects p ts with
+    | Some t1 =>
+        match expects [":"; ":"]%string t1 with
+        | Some (vn :: t2) =>
+            match find (fun v => String.eqb (v_name v) vn) vs with
+            | Some v =>
+                if item_eligible s t then
+                  match items_get m (t_path t) with
+                  | Some (_, ir) =>
+                      match sig_of_ir ir with
+                      | ISEnum sigs =>
+                          match find (fun x => String.eqb (fst x) vn) sigs with
+                          | Some (_, L) => read_shape (conf_ir r s m fuel) L (Some false) (v_fields v) t2
+                          | None => None
+                          end
+                      | ISStruct _ _ => None
+                      end
+                  | None => None
+                  end
+                else
+                  match layout_of_fields (v_fields v) with
+                  | Some L => read_shape (conf_ir r s m fuel) L (Some false) (v_fields v) t2
+                  | None => None
+                  end
+            | None => None
+            end
+        | _ => None
+        end
+    | None => None
+    end = Some rest -> conforms r s m id ts rest.
+  Proof.
+    intros IH L D Ep H.
+    destruct (expects p ts) as [t1|] eqn:E1; [|discriminate]. apply expects_ok in E1. subst ts.
+    destruct (expects [":"; ":"]%string t1) as [[|vn t2]|] eqn:E2; try discriminate.
+    apply expects_ok in E2. subst t1. cbn [app].
+    destruct (find (fun v => String.eqb (v_name v) vn) vs) as [v|] eqn:Fv; [|discriminate].
+    apply find_some in Fv as [Hin Hvn]. apply String.eqb_eq in Hvn. subst vn.
+    destruct (item_eligible s t) eqn:El.
+    - destruct (items_get m (t_path t)) as [[id0 ir]|] eqn:G; [|discriminate].
+      destruct (sig_of_ir ir) as [|sigs] eqn:Sg; [discriminate|].
+      destruct (find (fun x => String.eqb (fst x) (v_name v)) sigs) as [[n' L0]|] eqn:Fs; [|discriminate].
+      apply find_some in Fs as [Hs Hn]. cbn [fst] in Hn. apply String.eqb_eq in Hn. subst n'.
+      apply (read_shape_sound _ _ IH) in H as (b & Hb & Hshape).
+      rewrite (Hb false eq_refl) in Hshape. eapply c_variant_item; eauto.
+    - destruct (layout_of_fields (v_fields v)) as [L0|] eqn:Lf; [|discriminate].
+      apply (read_shape_sound _ _ IH) in H as (b & Hb & Hshape).
+      rewrite (Hb false eq_refl) in Hshape. eapply c_variant_foreign; eauto.
+  Qed.
+
+  Theorem conf_ir_sound : forall fuel id ts rest,
+    conf_ir r s m fuel id ts = Some rest -> conforms r s m id ts rest.
+  Proof.
+    induction fuel as [|fuel IH]; intros id ts rest H; [discriminate|].
+    cbn [conf_ir] in H. destruct (lookup r id) as [t|] eqn:L; [|discriminate].
+    destruct (t_def t) eqn:D.
+    - (* composite *)
+      destruct (cow_inner t) as [inner|] eqn:Ec; [eapply c_cow; eauto|].
+      destruct (path_omit_generics r s id) as [p|e|msg] eqn:Ep; try discriminate.
+      destruct (expects p ts) as [t1|] eqn:E1; [|discriminate]. apply expects_ok in E1. subst ts.
+      destruct (item_eligible s t) eqn:El.
+      + destruct (items_get m (t_path t)) as [[id0 ir]|] eqn:G; [|discriminate].
+        destruct (sig_of_ir ir) as [L0 mk|] eqn:Sg; [|discriminate].
+        apply (read_shape_sound _ _ IH) in H as (b & Hb & Hshape).
+        rewrite (Hb mk eq_refl) in Hshape. eapply c_struct_item; eauto.
+      + destruct (layout_of_fields fs) as [L0|] eqn:Lf; [|discriminate].
+        apply (read_shape_sound _ _ IH) in H as (b & Hb & Hshape). eapply c_struct_foreign; eauto.
+    - (* variant *)
+      destruct (path_omit_generics r s id) as [p|e|msg] eqn:Ep; try discriminate.
+      pose proof (variant_general_sound fuel id t vs p ts rest IH L D Ep) as HG.
+      destruct (list_eqb String.eqb p ["Option"%string] && existsb is_none_variant vs) eqn:EN; [|exact (HG H)].
+      destruct (expect "None" ts) as [r1|] eqn:E1; [|exact (HG H)].
+      inversion H; subst r1. apply expect_ok in E1. subst ts.
+      apply andb_prop in EN as [EN1 EN2].
+      apply (list_eqb_sound String.eqb (fun x y => proj1 (String.eqb_eq x y))) in EN1. subst p.
+      apply existsb_exists in EN2 as (v & Hin & Hv). unfold is_none_variant in Hv.
+      apply andb_prop in Hv as [Hv1 Hv2]. apply String.eqb_eq in Hv1.
+      eapply c_none; eauto. destruct (v_fields v); [reflexivity|discriminate].
+    - (* sequence *)
+      destruct (expects ["vec"; "!"; "["]%string ts) as [t1|] eqn:E1; [|discriminate].
+      apply expects_ok in E1. subst ts. cbn [app].
+      destruct (expect "]" t1) as [r1|] eqn:E2.
+      + inversion H; subst r1. apply expect_ok in E2. subst t1. eapply c_seq; eauto. apply sep_0.
+      + destruct (read_sep (conf_ir r s m fuel) (S (List.length t1)) t0 t1 0) as [[k t2]|] eqn:Es; [|discriminate].
+        apply (read_sep_sound _ _ IH) in Es as (j & _ & _ & Hsep).
+        apply expect_ok in H. subst t2. eapply c_seq; eauto.
+    - (* array *)
+      destruct (expect "[" ts) as [t1|] eqn:E1; [|discriminate]. apply expect_ok in E1. subst ts.
+      destruct (expect "]" t1) as [r1|] eqn:E2.
+      + destruct (N.eqb len 0) eqn:E0; [|discriminate]. apply N.eqb_eq in E0. subst len.
+        inversion H; subst r1. apply expect_ok in E2. subst t1. eapply c_array_list; eauto. apply sep_0.
+      + destruct (conf_ir r s m fuel t0 t1) as [t2|] eqn:Ee; [|discriminate]. apply IH in Ee.
+        destruct (expect ";" t2) as [t3|] eqn:E3.
+        * apply expect_ok in E3. subst t2. apply expects_ok in H. subst t3. cbn [app] in Ee.
+          eapply c_array_repeat; eauto.
+        * destruct (expect "," t2) as [t3'|] eqn:E4.
+          -- apply expect_ok in E4. subst t2.
+             destruct (read_sep (conf_ir r s m fuel) (S (List.length t3')) t0 t3' 0) as [[k t4]|] eqn:Es; [|discriminate].
+             apply (read_sep_sound _ _ IH) in Es as (j & Hk & Hj & Hsep).
+             destruct (N.eqb (N.succ k) len) eqn:Ek; [|discriminate]. apply N.eqb_eq in Ek.
+             apply expect_ok in H. subst t4. eapply c_array_list; eauto.
+             replace len with (N.succ j) by lia. eapply sep_S; eauto.
+          -- destruct (N.eqb len 1) eqn:E1'; [|discriminate]. apply N.eqb_eq in E1'. subst len.
+             apply expect_ok in H. subst t2. eapply c_array_list; eauto. apply sep_1. exact Ee.
+    - (* tuple *)
+      destruct (expect "(" ts) as [t1|] eqn:E1; [|discriminate]. apply expect_ok in E1. subst ts.
+      destruct (read_tuple (conf_ir r s m fuel) ts0 t1) as [t2|] eqn:E2; [|discriminate].
+      apply (read_tuple_sound _ _ IH) in E2. apply expect_ok in H. subst t2. eapply c_tuple; eauto.
+    - (* primitive *) eapply c_prim; eauto. apply read_prim_sound. exact H.
+    - (* compact *) eapply c_compact; eauto.
+    - (* bits *) apply expects_ok in H. subst ts. eapply c_bits; eauto.
+  Qed.
+
+  Theorem conforms_irb_sound id ts : conforms_irb r s m id ts = true -> conforms r s m id ts [].
+  Proof.
+    unfold conforms_irb. destruct (conf_ir r s m (conf_fuel r ts) id ts) as [[|x rest]|] eqn:E; try discriminate.
+    intros _. eapply conf_ir_sound; eauto.
+  Qed.
+End IrSound.
